@@ -642,7 +642,7 @@ Proof.
   destruct s as [hp vars], t as [cs svs]. simpl in *.
   assert (Hsame : sim (mkI hp vars) (mkS cs svs)).
   { exists m. exact (conj Hwf (conj Hlen (conj Hnd (conj Hm Hv)))). }
-  destruct o as [v dst i p|v i|v p]; unfold i_step, i_step_with, s_step; simpl.
+  destruct o as [v dst i p|v i|v p|v]; unfold i_step, i_step_with, s_step; simpl.
   - (* AddValidator *)
     destruct (nth_error vars v) as [h|] eqn:Ev.
     2:{ rewrite (Forall2_nth_none _ _ _ _ Hv Ev). simpl. split; [exact Hsame|reflexivity]. }
@@ -704,6 +704,12 @@ Proof.
     destruct (Hm _ _ Hmc) as [Hh Hc]. simpl in Hc. rewrite (cell_of (mkS cs svs) c _ Hc). simpl.
     rewrite validator_index_ok by (auto; unfold lookup_fuel; lia). simpl.
     split; [exact Hsame|reflexivity].
+  - (* state copy: a second variable for the same handle *)
+    destruct (nth_error vars v) as [h|] eqn:Ev.
+    2:{ rewrite (Forall2_nth_none _ _ _ _ Hv Ev). simpl. split; [exact Hsame|reflexivity]. }
+    destruct (Forall2_nth_l _ _ _ _ _ Hv Ev) as (c & Ec & Hmc). rewrite Ec. simpl.
+    split; [|reflexivity]. exists m. refine (conj Hwf (conj Hlen (conj Hnd (conj Hm _)))). simpl.
+    apply Forall2_app; [exact Hv|]. constructor; [exact Hmc|constructor].
 Qed.
 
 Lemma sim_run ops : forall s t, sim s t ->
@@ -844,7 +850,7 @@ End AddCorollaries.
 (* along every run from a duplicate-free initial registry, every output is a value or the add error *)
 Lemma s_step_total t o : (exists v, snd (s_step t o) = Ok v) \/ snd (s_step t o) = Err.
 Proof.
-  destruct o as [v dst i p|v i|v p]; simpl; destruct (nth_error (svars t) v); simpl; eauto.
+  destruct o as [v dst i p|v i|v p|v]; simpl; destruct (nth_error (svars t) v); simpl; eauto.
   destruct (s_add (cell t n) i p); simpl; eauto.
 Qed.
 Theorem run_total l ops : NoDup l ->
